@@ -13,7 +13,9 @@ forwards / queues / drops every request exactly once and forwards in arrival ord
 from __future__ import annotations
 
 import json
+import os
 import random
+import shutil
 from concurrent.futures import ThreadPoolExecutor
 
 from .. import tlc
@@ -23,6 +25,9 @@ from . import c10_entity as ce
 from . import c10_policy as cp
 
 SPEC = tlc.SPECS / "ratelimit"
+# many short-lived JVMs run side by side: keep each one's GC / JIT thread pools small
+JENV = {"JAVA_TOOL_OPTIONS": "-XX:ParallelGCThreads=2 -XX:CICompilerCount=2"}
+RUN = f"C10_{os.getpid()}"        # work-dir prefix: concurrent invocations must not share TLC scratch dirs
 KINDS = ("tb", "lb", "sw", "fw", "ad")
 POLICY_INVS = {"tb": ["InvBucketBound"], "lb": ["InvLeakySpacing"], "sw": ["InvSlidingWindow"],
                "fw": ["InvFixedAligned", "InvFixed2N"], "ad": ["InvAdaptiveBound", "InvRateRange"]}
@@ -111,15 +116,27 @@ def entity_configs(tier):
                 ("e_p3", dict(P=3, MaxReq=4, MaxT=9))]
 
 
+_POOL = None
+
+
+def _pool():
+    """Shared pool of TLC processes: many small models, JVM start dominates, 2 workers each."""
+    global _POOL
+    if _POOL is None:
+        _POOL = ThreadPoolExecutor(max(2, tlc.DEFAULT_WORKERS // 2))
+    return _POOL
+
+
+def _submit(jobs, fn):
+    return [_pool().submit(fn, j, 2) for j in jobs]
+
+
 def _parallel(jobs, fn):
-    par = max(2, tlc.DEFAULT_WORKERS // 2)      # many small models: JVM start dominates, 2 workers each
-    workers = 2
-    with ThreadPoolExecutor(par) as ex:
-        return list(ex.map(lambda j: fn(j, workers), jobs))
+    return [f.result() for f in _submit(jobs, fn)]
 
 
-def model_check(chk: Check, tier):
-    wd = tlc.workdir("C10_mc")
+def mc_submit(tier):
+    wd = tlc.workdir(f"{RUN}_mc")
     jobs = []
     for name, pol, kw in policy_configs(tier):
         consts, _ = pconsts(pol, **kw)
@@ -142,12 +159,19 @@ def model_check(chk: Check, tier):
     def one(job, workers):
         kind, name, module, consts, invs, expect = job
         cfg = tlc.write_cfg(wd / f"{kind}_{name.replace('@', '_')}.cfg", constants=consts, invariants=invs)
-        res = tlc.run(SPEC / module, cfg, label=f"C10_mc_{kind}_{name.replace('@', '_')}", timeout=3000,
-                      workers=workers)
+        big = consts.get("MaxOps", 0) >= 8 or (consts.get("Policy") == '"ad"' and consts.get("MaxOps", 0) >= 6)
+        res = tlc.run(SPEC / module, cfg, label=f"{RUN}_mc_{kind}_{name.replace('@', '_')}", timeout=3000,
+                      workers=4 if big else workers, heap="3g", env=JENV)
         return job, res
 
+    # largest models first so that they do not become the long pole of the shared pool
+    jobs.sort(key=lambda j: -(j[3].get("MaxOps", 0) * 10 + j[3].get("MaxT", 0)) if j[0] == "clean" else 0)
+    return _submit(jobs, one)
+
+
+def mc_collect(chk: Check, futs):
     cex = []
-    for job, res in _parallel(jobs, one):
+    for job, res in (f.result() for f in futs):
         kind, name, module, consts, invs, expect = job
         if kind == "clean":
             chk.add_tlc(f"{module[:-4]} Dev={{}} {name}", res)
@@ -180,8 +204,8 @@ def _steps_from_states(states):
     return steps
 
 
-def policy_tours(chk, tier, rng, add_policy_trace):
-    wd = tlc.workdir("C10_tour")
+def ptour_submit(tier):
+    wd = tlc.workdir(f"{RUN}_tour")
     confs = [("tb", dict(MaxOps=5, MaxT=8)), ("tb", dict(C=1, I=0, P=3, MaxOps=5, MaxT=9)),
              ("lb", dict(P=3, MaxOps=5, MaxT=9)), ("sw", dict(MaxOps=5, MaxT=8)),
              ("fw", dict(MaxOps=5, MaxT=8)), ("ad", dict(MaxOps=4, MaxT=8))]
@@ -200,14 +224,19 @@ def policy_tours(chk, tier, rng, add_policy_trace):
         i, pol, consts, c = job
         cfg = tlc.write_cfg(wd / f"tour_{i}.cfg", constants=consts)
         dot = wd / f"tour_{i}.dot"
-        res = tlc.run(SPEC / "Limiters.tla", cfg, label=f"C10_tour_{i}", dump_dot=dot, timeout=3000, workers=workers)
+        res = tlc.run(SPEC / "Limiters.tla", cfg, label=f"{RUN}_tour_{i}", dump_dot=dot, timeout=3000, workers=workers,
+                      heap="3g", env=JENV)
         return job, res, dot
 
+    return _submit(jobs, one)
+
+
+def ptour_collect(chk, tier, rng, add_policy_trace, futs):
     cap = 700 if tier == "quick" else 12000
     total_paths = total_edges = 0
     matched = compared = 0
     all_done = True
-    for (i, pol, consts, c), res, dot in _parallel(jobs, one):
+    for (i, pol, consts, c), res, dot in (f.result() for f in futs):
         chk.add_tlc(f"Limiters tour graph {pol} #{i}", res, count=False, note="state graph for the transition tour")
         g = tlc.parse_dot(dot)
         dot.unlink(missing_ok=True)
@@ -254,8 +283,8 @@ def replay_counterexamples(chk, cex, add_policy_trace):
 ENTITY_SCALES = (125_000_000, 250_000_000, 62_500_000)    # float-exact: rates 4, 2, 8 tokens/s
 
 
-def entity_tours(chk, tier, rng, add_entity_run):
-    wd = tlc.workdir("C10_etour")
+def etour_submit(tier):
+    wd = tlc.workdir(f"{RUN}_etour")
     dev = [d for d in as_code_dev() if d == ENTITY_KNOWN_DEV]
     confs = [dict(), dict(C=2, QCap=1)]
     if tier == "thorough":
@@ -269,13 +298,19 @@ def entity_tours(chk, tier, rng, add_entity_run):
         i, consts, c = job
         cfg = tlc.write_cfg(wd / f"etour_{i}.cfg", constants=consts)
         dot = wd / f"etour_{i}.dot"
-        res = tlc.run(SPEC / "Limited.tla", cfg, label=f"C10_etour_{i}", dump_dot=dot, timeout=3000, workers=workers)
+        res = tlc.run(SPEC / "Limited.tla", cfg, label=f"{RUN}_etour_{i}", dump_dot=dot, timeout=3000, workers=workers,
+                      heap="3g", env=JENV)
         return job, res, dot
 
+    return _submit(jobs, one)
+
+
+def etour_collect(chk, tier, rng, add_entity_run, futs):
+    dev = [d for d in as_code_dev() if d == ENTITY_KNOWN_DEV]
     cap = 500 if tier == "quick" else 8000
     matched = total = 0
     all_done = True
-    for (i, consts, c), res, dot in _parallel(jobs, one):
+    for (i, consts, c), res, dot in (f.result() for f in futs):
         chk.add_tlc(f"Limited tour graph #{i} Dev={dev}", res, count=False, note="state graph for the transition tour")
         g = tlc.parse_dot(dot)
         dot.unlink(missing_ok=True)
@@ -377,7 +412,8 @@ def inductor_run(rng, k):
     n = rng.randint(2, 10)
     t, arrivals = rng.choice([0, U]), []
     for _ in range(n):
-        t += rng.choice([U, U, U // 2, 2 * U, 3, U // 10, 5 * U])     # same-instant bursts are kept apart (C07 scope)
+        # same-instant bursts make the Inductor's poll spin at a frozen clock (C07's subject): rare here
+        t += rng.choice([U, U, U // 2, 2 * U, 3, U // 10, 5 * U] + ([0] if k % 7 == 1 else []))
         arrivals.append(t)
     return dict(desc=None, arrivals=arrivals, cap=rng.choice([1, 2, 1000]), end=arrivals[-1] + 40 * U, feeder=[],
                 plan=None, limiter="inductor", tau=rng.choice([0.001, 0.01, 0.1]), origin="inductor")
@@ -398,17 +434,25 @@ def execute_entity(run):
 # ---------------------------------------------------------------------------
 
 def validate(module, traces, dev, label, chk, name):
-    """Batch trace validation; returns {id: dict(v, pos, mv, mpos, known, kpos)}."""
-    wd = tlc.WORK / label
-    wd.mkdir(parents=True, exist_ok=True)
-    cfg = tlc.write_cfg(wd / "trace.cfg", spec="Spec", constants={"Dev": devset(dev)})
-    out = {}
-    for k in range(0, len(traces), 2500):
-        part = traces[k:k + 2500]
+    """Batch trace validation (chunks judged by parallel single-worker TLC processes);
+    returns {id: dict(v, pos, mv, mpos, known, kpos)}."""
+    chunks = [traces[k:k + 2500] for k in range(0, len(traces), 2500)]
+
+    def one(job, _workers):
+        k, part = job
+        lab = f"{RUN}_{label}_{k}"
+        wd = tlc.workdir(lab)
+        cfg = tlc.write_cfg(wd / "trace.cfg", spec="Spec", constants={"Dev": devset(dev)})
         f = wd / "traces.json"
         f.write_text(json.dumps(part, separators=(",", ":")))
-        res = tlc.run(SPEC / module, cfg, label=label, workers=1, timeout=3000, env={"TRACE_FILE": str(f)})
-        chk.add_tlc(f"{name} batch ({len(part)} executions, Dev={dev})", res,
+        res = tlc.run(SPEC / module, cfg, label=lab, workers=1, timeout=3000,
+                      env={"TRACE_FILE": str(f), **JENV}, heap="2g")
+        f.unlink(missing_ok=True)
+        return k, part, res, wd
+
+    out = {}
+    for k, part, res, wd in _parallel(list(enumerate(chunks)), one):
+        chk.add_tlc(f"{name} batch {k} ({len(part)} executions, Dev={dev})", res,
                     note="trace validation (one TLC state per recorded call)")
         for v in res.printed:
             if isinstance(v, tuple) and len(v) == 4 and v[0] == "V":
@@ -418,8 +462,12 @@ def validate(module, traces, dev, label, chk, name):
         miss = [t["id"] for t in part if "v" not in out.get(t["id"], {}) or "mv" not in out.get(t["id"], {})]
         if miss:
             raise tlc.TLCFailure(f"{label}: no verdict for traces {miss[:3]} (see {wd / 'tlc.out'})")
-        f.unlink(missing_ok=True)
     return out
+
+
+def cleanup():
+    for d in tlc.WORK.glob(f"{RUN}_*"):
+        shutil.rmtree(d, ignore_errors=True)
 
 
 def run(tier, seed, replay=None):
@@ -451,6 +499,11 @@ def run(tier, seed, replay=None):
 
     def add_entity_run(run_):
         h, r = execute_entity(run_)
+        if run_["limiter"] != "rle" and r["spun"]:
+            # the Inductor has no time_until_available; a frozen-clock spin of its poll is property C07's
+            # subject, not a clause of C10: recorded as an observation, never judged here
+            r["spin"] = 0
+            chk.extra["inductor_frozen_clock_spins_observed"] = chk.extra.get("inductor_frozen_clock_spins_observed", 0) + 1
         tid = len(etraces) + 1
         etraces.append(ce.entity_trace(tid, r, run_["cap"], model=1 if run_["limiter"] == "rle" else 0))
         emeta[tid] = dict(run=run_, err=r["err"])
@@ -460,6 +513,12 @@ def run(tier, seed, replay=None):
                           dict(kind="entity", run=run_))
         if h is not None and r["ops"]:
             add_policy_trace(r["ops"], dict(origin="entity:" + run_["origin"], entity_run=run_), hdr=h)
+        if h is not None and r["fwd_ops"]:
+            # the instants at which requests were forwarded downstream must satisfy the policy's bound
+            hs = dict(h)
+            hs["mc"] = 0
+            add_policy_trace(r["fwd_ops"], dict(origin="entity_forwards:" + run_["origin"], entity_run=run_,
+                                                forwards=True), hdr=hs)
         return r
 
     if replay:
@@ -474,19 +533,31 @@ def run(tier, seed, replay=None):
         phase[name] = round(time.time() - t0, 1)
         t0 = time.time()
 
+    import os
+    phases = set(os.environ.get("VERIF_C10_PHASES", "mc,tour,drive").split(","))   # development aid only
+
+    # all TLC jobs of phases 1 and 2 share one process pool (JVM start dominates the small models)
+    f_mc = mc_submit(tier) if "mc" in phases else []
+    f_pt = ptour_submit(tier) if "tour" in phases else []
+    f_et = etour_submit(tier) if "tour" in phases else []
+
     # 1. model checking + sensitivity
-    cex = model_check(chk, tier)
+    cex = mc_collect(chk, f_mc)
     lap("model_check")
 
     # 2. spec -> code
-    ex1 = policy_tours(chk, tier, rng, add_policy_trace)
-    replay_counterexamples(chk, cex, add_policy_trace)
-    ex2 = entity_tours(chk, tier, rng, add_entity_run)
+    ex1 = ex2 = False
+    if "tour" in phases:
+        ex1 = ptour_collect(chk, tier, rng, add_policy_trace, f_pt)
+        replay_counterexamples(chk, cex, add_policy_trace)
+        ex2 = etour_collect(chk, tier, rng, add_entity_run, f_et)
     chk.exhaustive = bool(ex1 and ex2)
     lap("spec_to_code")
 
     # 3. code -> spec
-    n_pol = 260 if tier == "quick" else 5000
+    n_pol = 260 if tier == "quick" else 2500
+    if "drive" not in phases:
+        n_pol = 0
     for kind in KINDS:
         for k in range(n_pol):
             r_ = random.Random(rng.random())
@@ -495,7 +566,7 @@ def run(tier, seed, replay=None):
             meta = dict(origin="random", schedule=[[o[0], o[1]] for o in rec.ops])
             meta.update(desc)
             add_policy_trace(rec, meta)
-    n_ent = 500 if tier == "quick" else 8000
+    n_ent = (500 if tier == "quick" else 4000) if "drive" in phases else 0
     for k in range(n_ent):
         r_ = random.Random(rng.random())
         if k % 3 == 0:
@@ -508,8 +579,8 @@ def run(tier, seed, replay=None):
     lap("code_drivers")
 
     # 4. judge every recorded execution with TLC
-    pv = validate("LimiterTrace.tla", ptraces, pol_dev, "C10_ptrace", chk, "LimiterTrace")
-    ev = validate("LimitedTrace.tla", etraces, ent_dev, "C10_etrace", chk, "LimitedTrace")
+    pv = validate("LimiterTrace.tla", ptraces, pol_dev, "ptrace", chk, "LimiterTrace")
+    ev = validate("LimitedTrace.tla", etraces, ent_dev, "etrace", chk, "LimitedTrace")
     chk.impl_traces = len(ptraces) + len(etraces)
     lap("trace_validation")
     chk.extra["phase_wall_s"] = phase
@@ -546,6 +617,7 @@ def run(tier, seed, replay=None):
         "(bounds, truthfulness and drain as invariants over admitted-instant logs and the answers of the calls); "
         "every edge of the bounded state graphs is executed on the real objects at several ns-per-tick scales; "
         "thousands of adversarial real executions are judged by the trace specs with TLC.")
+    cleanup()
     return chk.finish()
 
 
@@ -599,7 +671,7 @@ def breadth(chk, rng, tier, etraces, emeta):
                 fid = got[i] if i < len(got) else 0
                 f += 1 if fid else 0
                 steps.append(["r", i + 1, -1, "f" if fid == i + 1 else "x", fid, 0, i + 1, f, 0, 0])
-            tr = {"id": len(etraces) + 1, "cap": 0, "model": 0, "spin": 0, "steps": steps, "sink": got}
+            tr = {"id": len(etraces) + 1, "cap": 0, "model": 0, "order": 0, "spin": 0, "steps": steps, "sink": got}
             origin = "null"
         else:
             limit = r_.randint(1, 4)
@@ -639,7 +711,7 @@ def breadth(chk, rng, tier, etraces, emeta):
             if (recv, fw, dr) != (len(arr), f, d):  # the entity's own counters disagree with what happened
                 steps.append(["p", 0, -1, "n", 0, 0, recv, fw, 0, dr])
             done = [s[4] for s in steps if s[4]]
-            tr = {"id": len(etraces) + 1, "cap": 0, "model": 0, "spin": 0, "steps": steps, "sink": done}
+            tr = {"id": len(etraces) + 1, "cap": 0, "model": 0, "order": 0, "spin": 0, "steps": steps, "sink": done}
             origin = "distributed"
         etraces.append(tr)
         emeta[tr["id"]] = dict(run=dict(origin=origin, arrivals=arrivals), err=None)
@@ -658,20 +730,23 @@ def do_replay(chk, path, pol_dev, ent_dev):
         if "entity_run" in m:
             h, r = execute_entity(m["entity_run"])
             tr = dict(h)
-            tr["id"], tr["ops"] = 1, r["ops"]
+            tr["id"], tr["ops"] = 1, r["fwd_ops" if m.get("forwards") else "ops"]
+            if m.get("forwards"):
+                tr["mc"] = 0
         elif m.get("origin", "").startswith(("model_tour", "counterexample")):
             steps = [(dict(a="acq", u="tua", s="succ", f="fail")[o[0]], o[1] // m["scale"], 0) for o in m["schedule"]]
             rec, _, _ = cp.replay_model_path(m["mk"], m["consts"], m["scale"], steps)
             tr = rec.trace(1)
         else:
             tr = cp.rerun(dict(mk=m["mk"], kw=m["kw"], base=m.get("base", 0)), m["schedule"]).trace(1)
-        v = validate("LimiterTrace.tla", [tr], pol_dev, "C10_replay", chk, "LimiterTrace")
+        v = validate("LimiterTrace.tla", [tr], pol_dev, "replay", chk, "LimiterTrace")
         judge(chk, v, [tr], {1: m}, "policy")
     else:
         run_ = rp["meta"]["run"]
         h, r = execute_entity(run_)
         tr = ce.entity_trace(1, r, run_["cap"], model=1 if run_["limiter"] == "rle" else 0)
-        v = validate("LimitedTrace.tla", [tr], ent_dev, "C10_replay", chk, "LimitedTrace")
+        v = validate("LimitedTrace.tla", [tr], ent_dev, "replay", chk, "LimitedTrace")
         judge(chk, v, [tr], {1: rp["meta"]}, "entity")
     chk.impl_traces = 1
+    cleanup()
     return chk.finish()
